@@ -49,7 +49,7 @@ def run(prog, rep, tier, cfg):
         X.arg_has('K10', 'apply_penalty:adds-the-penalty', c, 1, ['P:2'], 'fee_debt += penalty', narrow=False)
         X.arg_has('K10', 'apply_penalty:into-fee_debt', c, 0, ['F:State.fee_debt'], 'the penalty is added to fee_debt', narrow=False)
     R = X.fn('state::' + RPD, CR)
-    subs = [c for c in R.calls if (c.defp or '').endswith('SubAssign::sub_assign') and has_atom(prog.slicer.operand(R, c.args[0]), 'F:State.fee_debt')]
+    subs = [c for c in R.calls if (c.defp or '').endswith('SubAssign::sub_assign') and X.updates_field(c, 'State', 'fee_debt')]
     rep.need('K10', 'repay_partial:debt-decrease-site', len(subs) == 1, 'one `fee_debt -= to_burn` expected, found %d' % len(subs), X.loc(R))
     for c in subs:
         X.arg_has('K10', 'repay_partial:decrease-is-min(unlocked,debt)', c, 1, ['C:core::cmp::min', 'C:State::get_unlocked_balance', 'F:State.fee_debt'], 'fee_debt decreases by min(unlocked balance, fee_debt)')
